@@ -108,10 +108,10 @@ CLAIMED = {
     ),
     "C09": (
         "proof",
-        "Coq proofs on the escape rule model with the escapable table regenerated from /repo + whole-pipeline correspondence on templated documents + literal-text oracle on the implementation",
-        "Theorems: every one of the 32 ASCII punctuation characters is in the ESCAPED table regenerated from /repo (C09_every_punct_escapable, finite domain by vm_compute) and the escape rule on backslash + such a character emits exactly that character as a text_special token and advances by two (C09_escape_rule). That the escaped or reference-encoded text then survives every later rule in every context is decided each run on the implementation: for generated t (all punctuation, blanks, non-ASCII, controls) esc(t) and ref(t) must render as exactly escapeHtml(t) in paragraph, heading, emphasis, link text, image alt, link title and table cell under three configurations. Known finding (listed, reported each run): a table cell whose text ends in a backslash.",
-        "Trusted: Coq kernel; inline model tied by sampled correspondence; context half by exploration (partial).",
-        "DESIGN.md §3 C09",
+        "End-to-end Coq theorem on the inline / pipeline model (renderInline of a backslash-escaped text is escapeHtml of the text) with the escapable table regenerated from /repo + whole-pipeline correspondence on templated documents + literal-text oracle on the implementation in 8 contexts",
+        "Theorems: for EVERY text t made of runs of characters the text rule does not stop at and of ASCII punctuation characters (each of the 32 is escapable: C09_every_punct_escapable, finite domain), the source esc(t) in which every punctuation character is preceded by a backslash is tokenized by the inline parser into text / text_special tokens whose concatenated content is exactly t (C09_inline_escaped_text: tokenizer loop, pending-text flushing, all four post-processing rules on a delimiter-free stream), and renderInline(esc(t)) = escapeHtml(t) (C09_render_inline_escaped: normalize, inline-mode block rule, inline, text_join, renderer) - for every configuration in which the escape rule is reached through text / newline / linkify(off) only, whatever inline rules follow it and whichever post-processing rules are enabled; hypotheses shown satisfiable on a concrete configuration and text. The escape rule itself: C09_escape_rule. Not theorems: the character-reference form ref(t), and the block contexts (paragraph, heading, emphasis, link text, image alt, title, table cell): decided each run on the implementation - for generated t (all punctuation, blanks, non-ASCII, controls) esc(t) and ref(t) must render as exactly escapeHtml(t) in 8 contexts under three configurations. Known finding (listed, reported each run): a table cell whose text ends in a backslash.",
+        "Trusted: Coq kernel; inline / pipeline model tied by sampled correspondence; block contexts and the reference form by exploration (partial).",
+        "DESIGN.md §3 C09, §8.2",
     ),
     "C10": (
         "proof",
